@@ -56,4 +56,8 @@ func runC32(c *Ctx) {
 		c.MinCount("R32", "guarded accesses to "+s.Pkg+"."+s.Type, n, s.min)
 	}
 	c.MinCount("R32", "structures in the guarded-by table", len(c32Table), 20)
+
+	c.Rule("R32b", "lock balance: in the packages of the guarded-by table every function releases each mutex it locked on every path to an exit, or defers the unlock (a lock left held makes the next access block forever)")
+	nb := c.runLockBalance("R32b", list, nil)
+	c.MinCount("R32b", "functions that take a lock", nb, 100)
 }
